@@ -1,7 +1,7 @@
 (* Pinned statements of the C19 theorems: this file fails to compile if a statement changes. *)
 From Coq Require Import List Arith Permutation.
 Import ListNotations.
-From NV Require Import Lsp.World Lsp.Spec Lsp.Inv Lsp.Witness Lsp.Main Props.C19.
+From NV Require Import Lsp.World Lsp.Spec Lsp.Inv Lsp.Witness Lsp.SelfImport Lsp.Main Props.C19.
 
 Check (C19_no_crash : forall cf pick disk rank fuel h, good pick disk rank fuel h ->
   exists w, run cf pick disk fuel h = Ok w).
@@ -54,5 +54,11 @@ Check (C19_cycle_order_refuted :
     run cfg_code idpick nodisk 50 h1 = Ok w1 /\ run cfg_code idpick nodisk 50 h2 = Ok w2 /\
     w_pub w1 0 = Some d1 /\ w_pub w2 0 = Some d2 /\ ~ same_diags d1 d2).
 
-Check (C19_self_import_overflows_50 :
-  run cfg_code idpick nodisk 50 [Open 0 (mkC 1 [0] SOk)] = Crash Overflow).
+Check (C19_self_import_diverges :
+  forall fuel, run cfg_code idpick nodisk fuel [Open 0 (mkC 1 [0] SOk)] = Crash Overflow).
+
+Check (C19_closed_buffer_patched :
+  exists w, run cfg_patched idpick disk1 50 hist1 = Ok w /\ w_pub w 0 = Some []).
+
+Check (C19_self_import_patched :
+  exists w, run cfg_patched idpick nodisk 50 [Open 0 (mkC 1 [0] SOk)] = Ok w /\ w_pub w 0 = Some []).
